@@ -8,25 +8,44 @@ constraint g, one observable o):
     ["ev",  h, i]        h.evaluate(p_i)         h in {f, g}, i in {1, 2, 3}
     ["jac", h, i]        h.jac(p_i)              p_i given in the coordinates the pre-processed function expects
     ["ef",  i, b, mode]  problem.evaluate_functions(p_i, design_vector_is_normalized=b, ...)   mode in {val, jac, both}
+    ["ub" | "lb", v]     design_space.set_upper_bound / set_lower_bound ALONE on one variable of the layout, between
+                         evaluations; v in {loose, tight (where the points leave room), inf, base}: loosen, tighten,
+                         finite <-> infinite (the unbounded layout gets a finite bound, the lb == ub layout separates
+                         its bounds).  The reference model follows the edit: physical images of the caller's
+                         normalized points, scaling D, normalizable and lb == ub components, membership in the bounds
+                         are recomputed from the NEW bounds (class Frame).  The caller keeps handing over the same
+                         numbers (normalized or physical); a point that an edit puts outside the bounds is legitimately
+                         refused by evaluate_functions (ValueError of check_membership: not a transition).
+    ["reset", v]         problem.reset(...) then a second preprocess_functions(...): v = same switch vector, "norm" =
+                         is_function_input_normalized toggled, "keepdb" = reset(database=False) (thorough)
+    ["orig", i]          the original functions, problem.get_functions(no_db_no_norm=True, jacobian_names=()), evaluated
+                         at the physical point p_i (values and Jacobians): must be the user's own F and J_F, at any
+                         stage (before / after a reset and a second pre-processing), and must not touch the database.
 
 Every point is handed over through ONE caller-owned buffer that the harness overwrites with garbage after each
-call (an aliased database key would follow it).  A state is the content of the real database (+ the lazily
-computed normalization flag of the design space); histories reaching the same database are merged.
+call (an aliased database key would follow it).  A state is the content of the real database + the bounds of the
+design space, its lazily computed normalization flag and cached ranges + the active switch vector; histories reaching
+the same state are merged.  Pruning of unobservable operations: an edit or a reset is never the LAST operation of a
+history (only a later evaluation can observe it); "orig" (independent of the database) is enabled as first or second
+operation and right after an edit / a reset; at most 1 (thorough pass A: 2) edit and 1 reset per history.
 
 Tiers (every pass is complete within its bound; the menus are in the evidence):
-  quick     depth 3; switch vectors with <= 1 non-default switch on a menu of 11 operations (16 on the layouts whose
-            third point is special: lb == ub, integers), vectors with exactly 2 non-default switches on a core menu of
-            9 operations (f/g x value/Jacobian x 2 points + one evaluate_functions through the conversion path).
-  thorough  depth 3 on the full switch product (128 vectors): 20 operations (3 points, 8 evaluate_functions variants)
-            for <= 2 non-default switches, the quick menu for the others; depth 4 on the full switch product with the
-            core menu.
-With the database off no state persists between calls: those searches close at depth 2 (one state).
+  quick     depth 3; switch vectors with <= 1 non-default switch on a menu of 11 evaluations (16 on the layouts whose
+            third point is special: lb == ub, integers) + orig + 2 edits (ub loosened, lb -> -inf) + 2 resets;
+            vectors with exactly 2 non-default switches on a core menu of 9 evaluations (f/g x value/Jacobian x 2
+            points + one evaluate_functions through the conversion path) + orig + 1 edit (ub loosened, after a first
+            evaluation has filled the normalization caches; vectors with normalized functions only) + reset(same).
+  thorough  depth 3: <= 1 non-default switch on the wide menu (20 evaluations, 2 orig, 7 edits incl. tighten and back
+            to base, 3 resets, 2 edits per history), the other 119 vectors on the quick menu; depth 4: <= 2 non-default
+            switches on the core menu.
+With the database off no database state persists between calls: those searches only branch on edits and resets.
 
 Cost.  The siblings of a state are executed on ONE World that is put back to a snapshot of (database content, model,
-lazy normalization flag, counters) instead of being rebuilt for every transition (x3 faster).  Safety net: every
-history of one operation and every history that shows a violation is re-executed on a World built from scratch by
-replaying the history, and must give the same canonical state and the same violations ("harness-restore-mismatch"
-otherwise); ``replay`` always rebuilds from scratch.
+the whole design space object state, pre-processed function objects, counters) instead of being rebuilt for every
+transition (x3 faster).  Safety net: every history of one operation, every history of two operations ending with an
+edit or a reset, and every history that shows a violation is re-executed on a World built from scratch by replaying
+the history, and must give the same canonical state and the same violations ("harness-restore-mismatch" otherwise);
+``replay`` always rebuilds from scratch.
 
 Oracle = the reference model of DESIGN.md section 5 (plain dictionaries):
   * x = round?(phys(p)) with phys the affine map of the bounded float components written out here,
@@ -38,11 +57,14 @@ Oracle = the reference model of DESIGN.md section 5 (plain dictionaries):
   * counters in the user's callables: a request whose (function, kind, point) is already recorded does not call
     the user's function again, and returns the same result as the first time.
 
-Value alphabet.  Bounds and points are dyadic rationals and every span is a power of two, so the affine maps
-normalize/unnormalize are exact in binary64 and the same physical point reached through normalized and physical
+Value alphabet.  Initial bounds and points are dyadic rationals and every initial span is a power of two, so the affine
+maps normalize/unnormalize are exact in binary64 and the same physical point reached through normalized and physical
 coordinates has the same bytes (the statement does not promise that a rounding-level difference of the
-normalization round trip is merged; this is kept out of the alphabet).  VERIF_SEED rotates three such alphabets
-(shift/scale of every bound and point, which side of the unbounded component is open).
+normalization round trip is merged; this is kept out of the alphabet).  After an edit the span need not be a power of
+two: the model then computes the physical image with the documented formulas in the documented order
+(x = z * (ub - lb) + lb;  z = (x - lb) * (1 / (ub - lb))), so a physical point handed to normalized functions is
+expected under unnormalize(normalize(p)).  VERIF_SEED rotates four alphabets (shift/scale of every bound, edit value
+and point, which side of the unbounded component is open).
 
 Tolerances (derived, not tuned; EPS = 2^-52, n = 3 inputs, every F_i is a polynomial of degree <= 2 with <= 9
 monomials):
@@ -79,6 +101,16 @@ Oracle boundaries (cases the statement leaves open are either removed from the a
         densified); the statement does not fix the container.
   (vii) MDOLinearFunction has no user callable: the counter claims are made for the callable kinds only (its
         database content and its returned values are checked like the others).
+  (viii) a Jacobian recorded while a component had lb == ub (zero column, as the statement demands) and served from the
+        database after an edit has separated the bounds of that component (or conversely): "served with the same
+        result" and "derivative w.r.t. the caller's coordinates" conflict; such hits are not judged.
+
+Known finding with its own invariant (so that it cannot hide anything else): an MDOLinearFunction pre-processed with
+normalized inputs is replaced by MDOLinearFunction.normalize(design_space), which freezes the bounds of the time of
+the pre-processing; after an edit of the bounds it is evaluated with the old bounds and recorded under the physical
+point of the new ones.  A mismatch of a linear function is reported as
+"linear-function-normalized-with-the-bounds-of-preprocessing" only when the observed value / Jacobian / stored
+Jacobian is exactly what the frozen bounds predict; anything else keeps the ordinary invariant.
 """
 from __future__ import annotations
 
@@ -1036,7 +1068,7 @@ def _ops(points, ef, orig=(), edits=(), resets=()):
 
 
 def ops_quick(layout, sw=None):
-    extra = {"orig": (1,), "edits": (("ub", "loose"), ("ub", "inf"), ("lb", "loose")), "resets": ("same", "norm")}
+    extra = {"orig": (1,), "edits": (("ub", "loose"), ("lb", "inf")), "resets": ("same", "norm")}
     if layout in SPECIAL:
         return _ops((1, 2, 3), [(1, 1, "val"), (1, 0, "both"), (3, 1, "jac"), (3, 0, "val")], **extra)
     return _ops((1, 2), [(1, 1, "val"), (1, 0, "both"), (2, 1, "jac")], **extra)
@@ -1051,7 +1083,8 @@ def ops_wide(layout, sw=None):
 def ops_core(layout, sw=None):
     # one evaluate_functions variant, given in the coordinates the functions do NOT work in (conversion path)
     b = 0 if (sw is None or sw["norm"]) else 1
-    return _ops((1, 3) if layout in SPECIAL else (1, 2), [(1, b, "both")], orig=(1,), edits=(("ub", "loose"),), resets=("same",))
+    edits = (("ub", "loose"),) if (sw is None or sw["norm"]) else ()  # the bounds only scale normalized functions
+    return _ops((1, 3) if layout in SPECIAL else (1, 2), [(1, b, "both")], orig=(1,), edits=edits, resets=("same",))
 
 
 OPSETS = {"quick": ops_quick, "wide": ops_wide, "core": ops_core}
@@ -1082,9 +1115,9 @@ def _passes(ctx):
     n = len(SWITCH_AXES)
     if ctx.thorough:
         return [
-            {"pass": "A", "depth": 3, "ops": "wide", "k": (0, 2), "max_edits": 2},
-            {"pass": "A'", "depth": 3, "ops": "quick", "k": (3, n), "max_edits": 1},
-            {"pass": "B", "depth": 4, "ops": "core", "k": (0, n), "max_edits": 1},
+            {"pass": "A", "depth": 3, "ops": "wide", "k": (0, 1), "max_edits": 2},
+            {"pass": "A'", "depth": 3, "ops": "quick", "k": (2, n), "max_edits": 1},
+            {"pass": "B", "depth": 4, "ops": "core", "k": (0, 2), "max_edits": 1},
         ]
     return [
         {"pass": "A", "depth": 3, "ops": "quick", "k": (0, 1), "max_edits": 1},
@@ -1143,7 +1176,9 @@ def run(ctx):
         "level": LEVEL,
         "rule": "one BFS per (layout x function kind x switch vector) over histories of h.evaluate(p) / h.jac(p) / evaluate_functions(p, "
         "design_vector_is_normalized=b, values and/or Jacobians); histories reaching the same database content are merged; "
-        "a history is non-trivial when a point is requested twice or value and Jacobian are requested at one point; "
+        "interleaved with design-space bound edits, reset + second pre-processing and evaluations of the original functions; "
+        "a history is non-trivial when a point is requested twice, value and Jacobian are requested at one point, or an "
+        "evaluation follows an edit / a reset; "
         "distinct = distinct (configuration, operation history)",
         "exhaustive": True,
         "bounds": {"layouts": LAYOUTS, "kinds": KINDS, "alphabet": idx, **bounds},
@@ -1151,8 +1186,9 @@ def run(ctx):
             "value alphabet: 3 points per layout, dyadic bounds/points with power-of-two spans (exact affine maps); 4 alphabets rotated by VERIF_SEED",
             "test functions are polynomials of degree <= 2 in 3 inputs (exact Taylor remainder for the approximated derivatives)",
             "oracle boundaries (i)-(vii) of the module docstring",
-            "states are merged on the database content (ordered keys, names, value bytes), the evaluation counter and the design space's lazily computed normalization flag",
-            "sibling transitions are executed on one World restored from a snapshot of (database, model, normalization flag); every violation and every history of <= 2 operations is re-executed on a World built from scratch and must agree",
+            "states are merged on the database content (ordered keys, names, value bytes), the evaluation counter, the bounds, the design space's normalization flag and cached ranges, the active switch vector, the numbers of edits and resets",
+            "an edit or a reset is never the last operation of a history; at most 1 (thorough pass A: 2) edit and 1 reset per history",
+            "sibling transitions are executed on one World restored from a snapshot (database, model, design space state, pre-processed functions); every violation, every one-operation history and every two-operation history ending with an edit or reset is re-executed on a World built from scratch and must agree",
             "gemseo.algos.problem_function.Value (multiprocessing.Value behind n_calls) is rebound to a plain in-process counter with the same interface",
         ],
     }
